@@ -125,6 +125,9 @@ def run_property(pid, P, tier, seed):
     def log(m): print("[%s %6.1fs] %s" % (pid, time.time() - t0, m), flush=True)
     known = vlib.load_known()
     violations = []
+    rd = os.path.join(vlib.VERIF, "replays", pid)
+    if os.path.isdir(rd):
+        for f in os.listdir(rd): os.remove(os.path.join(rd, f))
     ncorr, npred = P["n"]["thorough" if tier == "thorough" else "quick"]
     # 1. proof obligations
     proofs = vcheck.check_proofs(pid, P["vfiles"], log)
@@ -217,3 +220,7 @@ def replay(pid, P, path):
     res, be = corr.run_cases([case])
     print("case:", corr.case_line(0, case)); print("impl :", res[0]["impl"]); print("model:", res[0]["model"])
     return 0 if res[0]["impl"] == res[0]["model"] else 1
+
+def extra_specs():
+    """further harness binaries the registered checks need (built by tools/setup to warm the cache)"""
+    return []
